@@ -76,12 +76,13 @@ theorem accDeferred_of_obj : ∀ (n : Nat) (a : Ty), a.w ≤ n → asg cfg sfh a
         exfalso
         unfold asgRecv at h
         simp only [Bool.or_eq_true] at h
-        rcases h with (((h | h) | h) | h) | h
+        rcases h with ((((h | h) | h) | h) | h) | h
         · rw [lf .str rfl rfl (by unfold asgRecv; rfl)] at h; cases h
         · rw [lf .numeric rfl rfl (by unfold asgRecv; rfl)] at h; cases h
         · rw [lf (.bool none) rfl rfl (by unfold asgRecv; rfl)] at h; cases h
         · rw [lf (.regexp "") rfl rfl (by unfold asgRecv; rfl)] at h; cases h
         · rw [lf (.tspan Rng.all) rfl rfl (by unfold asgRecv; rfl)] at h; cases h
+        · rw [lf (.tstamp tstampAll) rfl rfl (by unfold asgRecv; rfl)] at h; cases h
       | scalarData =>
         exfalso
         unfold asgRecv at h
